@@ -268,11 +268,23 @@ func (c *ExprCtx) Atom(t *rapid.T) model.Expr {
 		if cmp, ok := model.CompareScalar(a, b); ok && cmp > 0 && rapid.IntRange(0, 9).Draw(t, "swap") > 0 {
 			a, b = b, a
 		}
-		return model.Between{V: pi.P, Lo: c.Val(a), Hi: c.Val(b)}
+		bt := model.Between{V: pi.P, Lo: c.Val(a), Hi: c.Val(b)}
+		switch rapid.IntRange(0, 9).Draw(t, "betweenBoundIsPath") {
+		case 4:
+			bt.Lo = c.DrawPath(t).P
+		case 6:
+			bt.Hi = c.DrawPath(t).P
+		}
+		return bt
 	case "in":
 		n := rapid.IntRange(1, 4).Draw(t, "inN")
 		var l []model.Expr
 		for i := 0; i < n; i++ {
+			if rapid.IntRange(0, 4).Draw(t, "inMemberIsPath") == 3 {
+				// another attribute (present or missing) as a member of the list
+				l = append(l, c.DrawPath(t).P)
+				continue
+			}
 			l = append(l, c.Val(c.near(t, pi)))
 		}
 		return model.In{V: pi.P, List: l}
